@@ -72,13 +72,27 @@ func genCL(outDir string) {
 	for _, c := range []string{"MinInitializedTick", "MaxTick", "MinCurrentTick", "MinInitializedTickV2", "MinCurrentTickV2", "ExponentAtPriceOne"} {
 		l.intDef(c, p.evalInt(id(c), 0))
 	}
-	for _, c := range []string{"MaxSpotPrice", "MinSpotPrice", "MaxSpotPriceBigDec", "MinSpotPriceBigDec", "MinSpotPriceV2"} {
+	for _, c := range []string{"MaxSpotPrice", "MinSpotPrice", "MaxSpotPriceBigDec", "MinSpotPriceBigDec", "MinSpotPriceV2", "MaxSqrtPrice", "MinSqrtPrice", "MaxSqrtPriceBigDec", "MinSqrtPriceBigDec"} {
 		l.intDef(c, p.eval(id(c), 0).v)
 	}
 	l.intList("SupportedUptimes", p.slice("SupportedUptimes"))
 	l.intList("AuthorizedTickSpacing", p.slice("AuthorizedTickSpacing"))
 	l.intList("AuthorizedSpreadFactors", p.slice("AuthorizedSpreadFactors"))
 
+	k := loadPkg(filepath.Join(repo, "x/concentrated-liquidity"))
+	l.natDef("swapNoProgressLimit", k.evalInt(id("swapNoProgressLimit"), 0))
+	for _, fn := range []string{"Keeper.computeOutAmtGivenIn", "Keeper.computeInAmtGivenOut", "Keeper.swapCrossTickLogic", "Keeper.updatePoolForSwap",
+		"SwapState.updateSpreadRewardGrowthGlobal", "validateSwapProgressAndAmountConsumption", "edgeCaseInequalityBasedOnSwapStrategy"} {
+		l.strDef("src_"+strings.ReplaceAll(fn, ".", "_"), k.bodyText(fn))
+	}
+	ss := loadPkg(filepath.Join(repo, "x/concentrated-liquidity/swapstrategy"))
+	for _, fn := range []string{"zeroForOneStrategy.ComputeSwapWithinBucketOutGivenIn", "zeroForOneStrategy.ComputeSwapWithinBucketInGivenOut",
+		"oneForZeroStrategy.ComputeSwapWithinBucketOutGivenIn", "oneForZeroStrategy.ComputeSwapWithinBucketInGivenOut",
+		"computeSpreadRewardChargePerSwapStepOutGivenIn", "computeSpreadRewardChargeFromAmountIn", "GetSqrtPriceLimit",
+		"zeroForOneStrategy.GetSqrtTargetPrice", "oneForZeroStrategy.GetSqrtTargetPrice"} {
+		l.strDef("src_"+strings.ReplaceAll(fn, ".", "_"), ss.bodyText(fn))
+		l.strList("ops_"+strings.ReplaceAll(fn, ".", "_"), ss.opList(fn))
+	}
 	m := loadPkg(filepath.Join(repo, "x/concentrated-liquidity/math"))
 	for _, fn := range []string{"CalcAmount0Delta", "CalcAmount1Delta", "GetNextSqrtPriceFromAmount0InRoundingUp",
 		"GetNextSqrtPriceFromAmount0OutRoundingUp", "GetNextSqrtPriceFromAmount1InRoundingDown", "GetNextSqrtPriceFromAmount1OutRoundingDown",
@@ -96,4 +110,7 @@ func genCL(outDir string) {
 
 func id(n string) ast.Expr { return &ast.Ident{Name: n} }
 
-func genMore(outDir string) {}
+func genMore(outDir string) {
+	genEpochs(outDir)
+	genAccum(outDir)
+}
